@@ -20,7 +20,7 @@ from ..session import READ_OPS, Session, cfg_name, default_config
 
 REPLAY_BY_RERUN = True  # workloads are deterministic in (tier, seed, shard): replay re-runs the shard
 SHARDS = {"quick": 8, "thorough": 16}
-TIMEOUT = {"quick": 900, "thorough": 3600}
+TIMEOUT = {"quick": 1800, "thorough": 7200}
 N_HIST = {"quick": 10, "thorough": 150}
 
 
